@@ -11,6 +11,7 @@ mod archive;
 mod files;
 mod crash;
 mod wire;
+mod netfuzz;
 use hcommon::parse_cli;
 
 fn main() {
@@ -27,6 +28,7 @@ fn main() {
         "files" => files::run(&cli),
         "crash" => crash::run(&cli),
         "wire" => wire::run(&cli),
+        "net" => netfuzz::run(&cli),
         "fprobe" => folder::probe(&cli),
         "sched" => sync::run_sched(&cli),
         d => {
